@@ -255,5 +255,5 @@ var c14Part = hx.NewPart("C14", "chain", genC14, evalC14)
 func TestC14(t *testing.T) {
 	s := hx.Start(t, "C14")
 	defer s.Finish()
-	c14Part.Run(s, hx.PerShard(hx.Pick(8000, 200000)))
+	c14Part.Run(s, hx.PerShard(hx.Pick(64000, 800000)))
 }
